@@ -189,6 +189,9 @@ struct Outcome {
     wiring: Option<u64>,
     /// seconds between the last byte in either direction and the close; None = still open at the end of the observation
     closed_after: Option<f64>,
+    /// how much later than the proxy the harness may have seen the last byte (the proxy measures idleness from
+    /// its own last relayed byte; the harness sees that byte later by the delivery latency)
+    slack: f64,
     observed_for: f64,
     closed_during_traffic: bool,
     stalled: bool,
@@ -232,12 +235,17 @@ async fn run_case(inst: &Instance, origin: SocketAddr, udp_orig: SocketAddr, c: 
                 return Err(format!("could not establish: {:?}", r));
             }
             let mut last = Instant::now();
+            // the instant before the harness's last write that the proxy relayed: the proxy's own "last byte"
+            // lies between this and `last`
+            let mut t_send: Option<Instant> = None;
+            let mut origin_driven = false;
             let mut closed_during = false;
             let mut half_closed = false;
             let mut buf = [0u8; 256];
             match c.pattern {
                 Pattern::Silent => {}
                 Pattern::BurstThenSilence => {
+                    t_send = Some(Instant::now());
                     s.write_all(b"Eburst-burst-burst").await.map_err(|e| e.to_string())?;
                     let mut got = 0;
                     while got < 18 {
@@ -251,6 +259,7 @@ async fn run_case(inst: &Instance, origin: SocketAddr, udp_orig: SocketAddr, c: 
                 Pattern::TrickleC2s(k) | Pattern::Alternating(k) => {
                     for i in 0..k {
                         tokio::time::sleep(period).await;
+                        t_send = Some(Instant::now());
                         if s.write_all(if i == 0 { b"E" } else { b"x" }).await.is_err() {
                             closed_during = true;
                             break;
@@ -267,6 +276,7 @@ async fn run_case(inst: &Instance, origin: SocketAddr, udp_orig: SocketAddr, c: 
                 }
                 Pattern::ClientHalfCloseThenSilence | Pattern::OriginHalfCloseThenSilence => {
                     let origin_closes = c.pattern == Pattern::OriginHalfCloseThenSilence;
+                    t_send = Some(Instant::now());
                     s.write_all(if origin_closes { b"Fhalf" } else { b"Hhalf" }).await.map_err(|e| e.to_string())?;
                     let mut got = 0;
                     while got < 5 {
@@ -288,6 +298,7 @@ async fn run_case(inst: &Instance, origin: SocketAddr, udp_orig: SocketAddr, c: 
                     half_closed = true;
                 }
                 Pattern::TrickleS2c(k) => {
+                    origin_driven = true;
                     s.write_all(&[b'T', k, (period.as_millis() / 10) as u8]).await.map_err(|e| e.to_string())?;
                     for _ in 0..k {
                         match tokio::time::timeout(period + Duration::from_secs(3), s.read(&mut buf)).await {
@@ -344,6 +355,11 @@ async fn run_case(inst: &Instance, origin: SocketAddr, udp_orig: SocketAddr, c: 
             Outcome {
                 wiring,
                 closed_after,
+                slack: match t_send {
+                    Some(t) => last.duration_since(t).as_secs_f64(),
+                    None if origin_driven => 0.4,
+                    None => 0.0,
+                },
                 observed_for: observe.as_secs_f64(),
                 closed_during_traffic: closed_during,
                 stalled: false,
@@ -420,6 +436,7 @@ async fn run_case(inst: &Instance, origin: SocketAddr, udp_orig: SocketAddr, c: 
             Outcome {
                 wiring,
                 closed_after,
+                slack: 0.3,
                 observed_for: observe.as_secs_f64(),
                 closed_during_traffic: closed_during,
                 stalled: false,
@@ -460,6 +477,7 @@ async fn run_case(inst: &Instance, origin: SocketAddr, udp_orig: SocketAddr, c: 
             Outcome {
                 wiring,
                 closed_after,
+                slack: 0.3,
                 observed_for: observe.as_secs_f64(),
                 closed_during_traffic: false,
                 stalled: false,
@@ -507,8 +525,8 @@ fn judge(c: &Case, o: &Outcome) -> Result<(), Failure> {
                 ))
             }
             Some(dt) => {
-                if dt < t as f64 - 0.1 {
-                    return Err(Failure::new(format!("closed-early:{}", shape), format!("timeout {} s: closed {:.2} s after the last byte", t, dt)));
+                if dt < t as f64 - 0.1 - o.slack {
+                    return Err(Failure::new(format!("closed-early:{}", shape), format!("timeout {} s: closed {:.2} s after the last byte was seen by the harness, which saw it at most {:.2} s after the proxy relayed it", t, dt, o.slack)));
                 }
                 if dt > t as f64 + 1.0 + 1.5 {
                     return Err(Failure::new(format!("closed-late:{}", shape), format!("timeout {} s: closed {:.2} s after the last byte", t, dt)));
@@ -566,7 +584,7 @@ impl SubCheck for IdleCheck {
         "idle"
     }
     fn rule(&self) -> String {
-        "five real proxy instances (timeouts absent / idle=0,udp=0 / idle=1,udp=2 / idle=2,udp=1 / idle=3) x tunnel kind {http, socks5, socks4, reverse TCP, SOCKS5 UDP association, reverse UDP session} x traffic pattern {silent, burst then silence, client trickle every 0.6 T, origin trickle every 0.6 T, alternating, client half-close then silence, origin half-close then silence (TCP kinds; closure observed through /api/live)}, all cases of an instance in parallel, real seconds; oracle: /api/live shows idle_timeout == the configured value for that kind (TCP <- idle, UDP <- udp, absent => 600); T in 1..3: closed between T-0.1 s and T+2.5 s after the last byte and never during a trickle; T = 0 or 600: still open after 4 s of silence; a host stall (> 0.6 s heartbeat gap) makes an upper-bound miss inconclusive; non-trivial = data after establishment or a non-default timeout".into()
+        "five real proxy instances (timeouts absent / idle=0,udp=0 / idle=1,udp=2 / idle=2,udp=1 / idle=3) x tunnel kind {http, socks5, socks4, reverse TCP, SOCKS5 UDP association, reverse UDP session} x traffic pattern {silent, burst then silence, client trickle every 0.6 T, origin trickle every 0.6 T, alternating, client half-close then silence, origin half-close then silence (TCP kinds; closure observed through /api/live)}, all cases of an instance in parallel, real seconds; oracle: /api/live shows idle_timeout == the configured value for that kind (TCP <- idle, UDP <- udp, absent => 600); T in 1..3: closed between T-0.1 s (minus the measured delivery latency of that byte: the proxy counts from its own relay of it) and T+2.5 s after the last byte and never during a trickle; T = 0 or 600: still open after 4 s of silence; a host stall (> 0.6 s heartbeat gap) makes an upper-bound miss inconclusive; non-trivial = data after establishment or a non-default timeout".into()
     }
     fn run(&self, part: &mut Part) {
         let all = cases(part.tier);
